@@ -8,8 +8,8 @@
 use super::Prop;
 use crate::rt::*;
 use allsorts::binary::read::{
-    CheckIndex, ReadArray, ReadArrayCow, ReadBuf, ReadCtxt, ReadScope, ReadScopeOwned,
-    ReadUnchecked,
+    CheckIndex, ReadArray, ReadArrayCow, ReadBinaryDep, ReadBuf, ReadCtxt, ReadFixedSizeDep,
+    ReadScope, ReadScopeOwned, ReadUnchecked,
 };
 use allsorts::binary::{I16Be, I32Be, I64Be, U16Be, U24Be, U32Be, U64Be, I8, U8};
 use allsorts::error::ParseError;
@@ -37,6 +37,32 @@ struct MScope {
 impl MScope {
     fn len(&self) -> usize {
         self.hi - self.lo
+    }
+}
+
+/// Element type with a declared size of `args` bytes whose reader reports how many bytes its window
+/// really offers (an element must see exactly its declared size, not its neighbours) and then tries
+/// to read one byte more than declared.
+struct WindowProbe;
+#[derive(Copy, Clone, Debug, PartialEq)]
+struct ProbeSeen {
+    window_len: usize,
+    first: Option<u8>,
+    extra_byte_readable: bool,
+}
+impl ReadBinaryDep for WindowProbe {
+    type Args<'a> = usize;
+    type HostType<'a> = ProbeSeen;
+    fn read_dep<'a>(ctxt: &mut ReadCtxt<'a>, size: usize) -> Result<ProbeSeen, ParseError> {
+        let window_len = ctxt.scope().data().len();
+        let body = ctxt.read_slice(size)?;
+        let extra_byte_readable = ctxt.read_u8().is_ok();
+        Ok(ProbeSeen { window_len, first: body.first().copied(), extra_byte_readable })
+    }
+}
+impl ReadFixedSizeDep for WindowProbe {
+    fn size(size: usize) -> usize {
+        size
     }
 }
 
@@ -365,6 +391,60 @@ impl<'w, 'c> Run<'w, 'c> {
         }
     }
 
+    /// read_array_dep with an element type that looks at its own window: every element handed out by
+    /// read_item / iter_res / read_to_vec must see exactly its declared size.
+    fn element_window_probe(&mut self, rng: &mut Rng, p: &mut CtxtPair<'w>) {
+        let avail = p.s.len() - p.off;
+        let size = 1 + rng.below(6);
+        let n = if rng.chance(1, 5) { avail / size + 1 } else { rng.below(avail / size + 1) };
+        self.op(format!("read_array_dep::<WindowProbe>({}, size {})", n, size));
+        let res = p.c.read_array_dep::<WindowProbe>(n, size);
+        let fits = n.checked_mul(size).map_or(false, |b| b <= avail);
+        match (res, fits) {
+            (Ok(arr), true) => {
+                let lo = p.s.lo + p.off;
+                p.off += n * size;
+                let mut seen: Vec<(usize, Result<ProbeSeen, ParseError>)> = Vec::new();
+                for _ in 0..3.min(n) {
+                    let i = rng.below(n);
+                    seen.push((i, arr.read_item(i)));
+                }
+                for (i, r) in arr.iter_res().enumerate() {
+                    seen.push((i, r));
+                }
+                if let Ok(v) = arr.read_to_vec() {
+                    for (i, x) in v.into_iter().enumerate() {
+                        seen.push((i, Ok(x)));
+                    }
+                }
+                for (i, r) in seen {
+                    match r {
+                        Ok(x) => {
+                            let want_first = self.window.get(lo + i * size).copied();
+                            if x.window_len != size || x.extra_byte_readable || x.first != want_first {
+                                self.fail("element-window", format!("element {} of a dependent array with element size {} saw a window of {} bytes (extra byte readable: {}, first byte {:?} expected {:?})", i, size, x.window_len, x.extra_byte_readable, x.first, want_first));
+                                return;
+                            }
+                        }
+                        Err(e) => {
+                            self.fail("element-window", format!("element {} of {} (size {}) failed to read: {:?}", i, n, size, e));
+                            return;
+                        }
+                    }
+                }
+                if n > 0 {
+                    self.cx.class("array:element-window-probed");
+                }
+                if matches!(arr.read_item(n), Ok(_)) {
+                    self.fail("element-window", format!("read_item({}) on an array of {} elements succeeded", n, n));
+                }
+            }
+            (Err(_), false) => self.cx.class("read_array_dep:probe:err"),
+            (Ok(arr), false) => self.fail("array-past-end", format!("read_array_dep::<WindowProbe>({}, {}) with {} bytes left returned an array of len {}", n, size, avail, arr.len())),
+            (Err(e), true) => self.fail("array-refused", format!("read_array_dep::<WindowProbe>({}, {}) with {} bytes left failed: {:?}", n, size, avail, e)),
+        }
+    }
+
     fn array_read<T: Dec + Clone>(&mut self, rng: &mut Rng, p: &mut CtxtPair<'w>)
     where
         T::HostType: PartialEq + Debug + Copy + Ord,
@@ -609,7 +689,8 @@ impl<'w, 'c> Run<'w, 'c> {
                 7..=10 => {
                     let p = &ctxts[ci];
                     let mut p2 = CtxtPair { c: p.c.clone(), s: p.s, off: p.off };
-                    match rng.below(6) {
+                    match rng.below(7) {
+                        6 => self.element_window_probe(rng, &mut p2),
                         0 => self.array_read::<U8>(rng, &mut p2),
                         1 => self.array_read::<U16Be>(rng, &mut p2),
                         2 => self.array_read::<I16Be>(rng, &mut p2),
